@@ -339,3 +339,61 @@ def shared_radio(c):
         c.ensure('settings-then-frame-%d' % j, "tuple(e[0] for e in tx) == ('dongle.set_channel', 'dongle.set_address', 'dongle.set_data_rate', 'dongle.send_packet') and "
                  "tx[0][1][0] == ch%d and tuple(tx[1][1][0]) == tuple(ad%d) and tx[2][1][0] == dr%d and tx[3][1][0] == frames[%d]" % (who, who, who, who))
     c.ensure('exactly-two-transmissions', "len(sent('dongle.send_packet')) == 2")
+
+
+@contract('C01', 'crazyradio.settings-cache', [CR + ':Crazyradio.set_channel', CR + ':Crazyradio.set_data_rate', CR + ':Crazyradio.scan_channels',
+                                               CR + ':Crazyradio.scan_selected'],
+          clause='a frame handed to the dongle goes out on the channel and data rate of its link: the dongle only skips a setting request when the '
+                 'dongle really has that setting, also after a scan ran on the same dongle in between',
+          bounded='one scan (channel range or two selected entries) between two uses of a link on the same dongle')
+def settings_cache(c):
+    vendor = c.ext('vendor')
+    c.patch(CR + ':_send_vendor_setup', vendor)
+    c.patch(CR + ':Crazyradio._log_packet', c.ext('log_packet'))
+    handle = c.ext('handle', returns={'read': None})
+    c.int('c0', 0, 125), c.int('d0', 0, 2)
+    radio = c.obj(CR + ':Crazyradio', handle=handle, devid=0, current_address=None, current_channel=None, current_datarate=None, arc=3)
+    c.call((radio, 'set_channel'), c.get('c0'))
+    c.call((radio, 'set_data_rate'), c.get('d0'))
+    what = c.choice('scan', ['channels', 'selected', 'none'])
+    if what == 'channels':
+        c.int('start', 0, 125)
+        width = c.choice('width', [0, 1, 2])
+        c.call((radio, 'scan_channels'), c.get('start'), c.snapshot('stop', 'start + %d' % width), (0xFF,))
+    elif what == 'selected':
+        c.int('s1', 0, 125), c.int('r1', 0, 2), c.int('s2', 0, 125), c.int('r2', 0, 2)
+        c.call((radio, 'scan_selected'), (c.dict([('channel', c.get('s1')), ('datarate', c.get('r1'))]),
+                                           c.dict([('channel', c.get('s2')), ('datarate', c.get('r2'))])), (0xFF,))
+    c.ensure('scan-returns', 'raised is None')
+    # the link is used again
+    c.call((radio, 'set_channel'), c.get('c0'))
+    c.call((radio, 'set_data_rate'), c.get('d0'))
+    c.snapshot('ch_reqs', "tuple(e[1][2] for e in sent('vendor') if e[1][1] == 0x01)")
+    c.snapshot('dr_reqs', "tuple(e[1][2] for e in sent('vendor') if e[1][1] == 0x03)")
+    c.ensure('dongle-is-on-the-link-channel', 'len(ch_reqs) >= 1 and ch_reqs[-1] == c0')
+    c.ensure('dongle-has-the-link-data-rate', 'len(dr_reqs) >= 1 and dr_reqs[-1] == d0')
+
+
+@contract('C01', 'shared_radio.instance-ids', [RD + ':_SharedRadio.open_instance', RD + ':_SharedRadioInstance.close', RD + ':_SharedRadio.run'],
+          clause='links sharing one dongle never share a response queue: opening a link while others are open, also after an earlier one was '
+                 'closed, gives it an id and a queue of its own, so acknowledgements and downlink packets cannot reach another link',
+          bounded='history open A, open B, close A, open C')
+def instance_ids(c):
+    radio = c.ext('dongle')
+    cmdq = c.queue('cmdq')
+    shared = c.obj(RD + ':_SharedRadio', _radio=radio, _devid=0, _cmd_queue=cmdq, _rsp_queues=c.dict([]), _next_instance_id=0,
+                   _lock=c.lock('sem'), version=0.5)
+    c.let('shared', shared)
+    a = c.call((shared, 'open_instance'))
+    b = c.call((shared, 'open_instance'))
+    c.let('a', a), c.let('b', b)
+    c.call((a, 'close'))
+    c.call((shared, 'run'))           # the radio thread serves the STOP command, then waits
+    c.ensure('radio-thread-idle', "raised == 'Deadlock'")
+    cc = c.call((shared, 'open_instance'))
+    c.let('cc', cc)
+    c.ensure('ids-of-live-links-differ', 'b._instance_id != cc._instance_id')
+    c.ensure('queues-of-live-links-differ', 'not is_same(b._rsp_queue, cc._rsp_queue)')
+    c.ensure('each-live-link-is-served-through-its-own-queue', 'is_same(shared._rsp_queues[b._instance_id], b._rsp_queue) and '
+             'is_same(shared._rsp_queues[cc._instance_id], cc._rsp_queue) and len(shared._rsp_queues) == 2')
+    c.ensure('dongle-kept-open-for-the-remaining-link', "len(sent('dongle.close')) == 0")
